@@ -78,7 +78,8 @@ def run_case(case):
     label = u["bank"]
     cells = []
     rec = {"seq": case["seq"], "unit": u, "value": case.get("value", ""), "latch": case.get("latch", 0),
-           "wdata": case.get("wdata", []), "ignore": case.get("ignore", 0), "legal": 1}
+           "wdata": case.get("wdata", []), "ignore": case.get("ignore", 0), "legal": 1,
+           "force": case.get("force", 0)}
     if case["seq"] == "read":
         v = VALUES[(label, case["value"])]
         gen = v.read_raw(addr) if case.get("raw_only") else v.read(addr)
@@ -92,7 +93,7 @@ def run_case(case):
                 rec["wdata"] = list(case["wdata"]) + [0]
         else:
             gen = v.write_raw(addr, bytes(case["wdata"]), allow_short_write=len(case["wdata"]) < len(v.locations),
-                              ignore_feedback=bool(case.get("ignore", 0)))
+                              ignore_feedback=bool(case.get("ignore", 0)), force_unlock=bool(case.get("force", 0)))
     evs, out = drive_multi(gen, answer, 700)
     rec["ev"] = evs
     o = {"exc": out["exc"], "cell": 0, "cells": []}
